@@ -28,7 +28,7 @@ ASSUMPTIONS = ["codec libraries (lzma, bz2, zlib, ...) are correct", "supported 
 FT = 132223104000000000
 
 
-GEN_DEPS = ["read_uint64", "read_uint32", "read_real_uint64", "read_boolean", "read_crcs", "read_byte", "PackInfo.__init__", "PackInfo._read", "PackInfo.retrieve", "Coder", "Bond.__init__", "Folder.__init__", "Folder._read", "Folder.retrieve", "UnpackInfo.__init__", "UnpackInfo._retrieve_coders_info", "UnpackInfo._read", "UnpackInfo.retrieve", "Folder._find_out_bin_pair", "Folder.get_unpack_size", "SubstreamsInfo.__init__", "SubstreamsInfo._inherit_folder_digests", "SubstreamsInfo._read", "SubstreamsInfo.retrieve", "SubstreamsInfo.default", "StreamsInfo.__init__", "StreamsInfo.read", "StreamsInfo.retrieve", "read_utf16", "FileEntry", "FilesInfo.__init__", "FilesInfo._read_name", "FilesInfo._read_attributes", "FilesInfo._read_times[creationtime]", "FilesInfo._read_times[lastaccesstime]", "FilesInfo._read_times[lastwritetime]", "FilesInfo._read", "FilesInfo.retrieve"]
+GEN_DEPS = ["read_uint64", "read_uint32", "read_real_uint64", "read_boolean", "read_crcs", "read_byte", "PackInfo.__init__", "PackInfo._read", "PackInfo.retrieve", "Coder", "Bond.__init__", "Folder.__init__", "Folder._read", "Folder.retrieve", "UnpackInfo.__init__", "UnpackInfo._retrieve_coders_info", "UnpackInfo._read", "UnpackInfo.retrieve", "Folder._find_out_bin_pair", "Folder.get_unpack_size", "SubstreamsInfo.__init__", "SubstreamsInfo._inherit_folder_digests", "SubstreamsInfo._read", "SubstreamsInfo.retrieve", "SubstreamsInfo.default", "StreamsInfo.__init__", "StreamsInfo.read", "StreamsInfo.retrieve", "read_utf16", "FileEntry", "FilesInfo.__init__", "FilesInfo._read_name", "FilesInfo._read_attributes", "FilesInfo._read_times[creationtime]", "FilesInfo._read_times[lastaccesstime]", "FilesInfo._read_times[lastwritetime]", "FilesInfo._read", "FilesInfo.retrieve", "calculate_crc32", "SignatureHeader.__init__", "SignatureHeader._read", "SignatureHeader.retrieve"]
 
 def gen_members(rng, n=None):
     n = rng.choice([1, 2, 3, 3, 4, 5, 6]) if n is None else n
